@@ -55,7 +55,7 @@ def case_functional(draw, tier):
     desc = draw(gm.mesh(max_cells=12 if big else 8, max_cells_3d=6 if big else 3, order2=True, curved=False))
     kind = gm.mesh_kind(desc)
     d = gm.DIM[kind]
-    maxdeg = (6 if big else 4) if d < 3 else (4 if (big or kind == 'wedge') else 3)
+    maxdeg = (6 if big else 4) if d < 3 else (4 if kind == 'wedge' else (6 if big else 5))
     alpha = draw(st.lists(st.integers(0, maxdeg), min_size=d, max_size=d).filter(lambda a: sum(a) <= maxdeg))
     nc = len(desc['t'][0])
     return dict(mesh=desc, alpha=alpha, where=draw(st.sampled_from(['cells', 'cellsub', 'subdomain', 'bnd', 'facetsub', 'interior'])),
